@@ -556,7 +556,8 @@ def parent_main(prop, tier, seed, nshards=NSHARDS_DEFAULT, only=None, budget_s=N
         validate_evidence(ev)
     except Exception as e:  # noqa
         harness_errors.append("evidence does not validate: %s" % str(e)[:500])
-    if not only:
+    if not only and os.path.realpath(REPO) == os.path.realpath("/repo"):
+        # evidence is only written for runs against /repo itself (never for runs against a scratch copy / mutant)
         with open(os.path.join(VERIF, "evidence", prop + ".json"), "w") as f:
             json.dump(ev, f, indent=1, default=str)
 
